@@ -79,6 +79,10 @@ pub struct Inner {
     mutating_calls: usize,
     /// The calls that were refused: (ticket, op).
     pub refused: Vec<(u64, Op)>,
+    /// Fault injection: the read (get_value / read_map) with this index fails with an IO error; later reads work.
+    pub read_fails_at: Option<usize>,
+    /// The reads that were refused: (ticket, lane id).
+    pub read_refused: Vec<(u64, u64)>,
 }
 
 #[derive(Clone, Default)]
@@ -147,6 +151,10 @@ impl NodePersistence for RecStore {
     fn get_value(&self, id: Self::LaneId, buffer: &mut BytesMut) -> Result<Option<usize>, StoreError> {
         let mut g = self.0.lock();
         g.reads += 1;
+        if g.read_fails_at == Some(g.reads as usize - 1) {
+            g.read_refused.push((ticket(), id));
+            return Err(StoreError::Io(std::io::Error::new(std::io::ErrorKind::Other, "injected store read failure")));
+        }
         Ok(g.state.values.get(&id).map(|v| {
             buffer.put_slice(v);
             v.len()
@@ -176,6 +184,10 @@ impl NodePersistence for RecStore {
     fn read_map(&self, id: Self::LaneId) -> Result<Self::MapCon<'_>, StoreError> {
         let mut g = self.0.lock();
         g.reads += 1;
+        if g.read_fails_at == Some(g.reads as usize - 1) {
+            g.read_refused.push((ticket(), id));
+            return Err(StoreError::Io(std::io::Error::new(std::io::ErrorKind::Other, "injected store read failure")));
+        }
         let entries = g.state.maps.get(&id).map(|m| m.iter().map(|(k, v)| (k.clone(), v.clone())).collect()).unwrap_or_default();
         Ok(OwnedRange { entries, next: 0 })
     }
